@@ -984,3 +984,253 @@ Proof.
     |intros [[_ [[E' _]|[k [a1 [E' _]]]]]|[H _]]; [rewrite E in E'; discriminate|rewrite E in E'; discriminate|exact H]].
 Qed.
 End StepObs.
+
+Section StepDeleg.
+Variable valid_id : bytes -> bool.
+Notation stp := (step valid_id).
+
+Lemma ev_delegate_inj s e c0 f0 t0 r0 p0 l0 k0 c from to r exp lvl :
+  ev_op e = ODelegate c0 f0 t0 r0 p0 l0 k0 -> ev_delegate valid_id s e c from to r exp lvl ->
+  c = c0 /\ from = f0 /\ to = t0 /\ r = r0 /\ lvl = l0 /\ exp = ev_now e + p0.
+Proof.
+  intros E (period & k & E' & _ & _ & _ & _ & _ & _ & _ & _ & _ & _ & X & _).
+  rewrite E in E'. inversion E'; subst. auto 6.
+Qed.
+
+Lemma ev_withdraw_inj s e c0 i0 d0 r0 k0 c id r :
+  ev_op e = OWithdraw c0 i0 d0 r0 k0 -> ev_withdraw s e c id r -> c = c0 /\ id = d0 /\ r = r0.
+Proof.
+  intros E (init & d & (k & E' & _) & _). rewrite E in E'. inversion E'; subst. auto.
+Qed.
+
+Lemma deleg_of_set s c0 id0 l c id r :
+  deleg_of (set_deleg s (c0, id0) l) c id r =
+  if key_eqb (c, id) (c0, id0) then find (has_role r) l else deleg_of s c id r.
+Proof. unfold deleg_of, set_deleg; simpl. unfold fput. destruct (key_eqb (c, id) (c0, id0)); reflexivity. Qed.
+
+Lemma step_deleg s e c id r d : Inv s -> ev_now e < 4294967296 ->
+  (deleg_of (snd (stp s e)) c id r = Some d <->
+   (exists from exp lvl, ev_delegate valid_id s e c from id r exp lvl /\ d = mkDel from (mkTok r exp lvl)) \/
+   (deleg_of s c id r = Some d /\ ~ ev_withdraw s e c id r /\ ~ ev_delegate_to valid_id s e c id r)).
+Proof.
+  intros I Hn.
+  destruct (ev_op e) as [c0 a0|c0 a0 k0|c0 a0 r0 fns0 k0|c0 a0 r0 ps0 k0|c0 f0 t0 r0 p0 l0 k0|c0 i0 d0 r0 k0|c0 cid cfn k0] eqn:E.
+  5: {
+    destruct (delegate_accept valid_id s e c0 f0 t0 r0 p0 l0 k0 I Hn E) as [ACC EFF].
+    assert (NW : ~ ev_withdraw s e c id r) by (intros (init & d' & (k & E' & _) & _); rewrite E in E'; discriminate).
+    destruct (res_true_dec (fst (stp s e))) as [A|NA].
+    - rewrite (EFF A), deleg_of_set. apply ACC in A.
+      destruct (key_eqb (c, id) (c0, t0)) eqn:K.
+      + apply key_eqb_eq in K. inversion K; subst c0 t0. rewrite upd_status_find.
+        destruct (bytes_eqb r0 r) eqn:B.
+        * apply bytes_eqb_eq in B. subst r0. split.
+          -- intro H. inversion H. left. exists f0, (ev_now e + p0), l0. auto.
+          -- intros [(from & exp & lvl & D & ->)|[_ [_ H]]].
+             ++ destruct (ev_delegate_inj s e _ _ _ _ _ _ _ _ _ _ _ _ _ E D) as (_ & -> & _ & _ & -> & ->). reflexivity.
+             ++ exfalso. apply H. exists f0, (ev_now e + p0), l0. exact A.
+        * apply bytes_eqb_neq in B. rewrite <- deleg_of_find. split.
+          -- intro H. right. repeat split; auto. intros (from & exp & lvl & D).
+             destruct (ev_delegate_inj s e _ _ _ _ _ _ _ _ _ _ _ _ _ E D) as (_ & _ & _ & X & _). congruence.
+          -- intros [(from & exp & lvl & D & _)|[H _]]; [|exact H].
+             destruct (ev_delegate_inj s e _ _ _ _ _ _ _ _ _ _ _ _ _ E D) as (_ & _ & _ & X & _). congruence.
+      + assert (NK : (c, id) <> (c0, t0)) by (intro X; apply key_eqb_eq in X; congruence). split.
+        * intro H. right. repeat split; auto. intros (from & exp & lvl & D).
+          destruct (ev_delegate_inj s e _ _ _ _ _ _ _ _ _ _ _ _ _ E D) as (X1 & _ & X2 & _). subst. contradiction.
+        * intros [(from & exp & lvl & D & _)|[H _]]; [|exact H].
+          destruct (ev_delegate_inj s e _ _ _ _ _ _ _ _ _ _ _ _ _ E D) as (X1 & _ & X2 & _). subst. contradiction.
+    - rewrite (step_refused_same valid_id s e NA). split.
+      + intro H. right. repeat split; auto. intros (from & exp & lvl & D).
+        destruct (ev_delegate_inj s e _ _ _ _ _ _ _ _ _ _ _ _ _ E D) as (-> & -> & -> & -> & -> & ->). apply NA. apply ACC. exact D.
+      + intros [(from & exp & lvl & D & _)|[H _]]; [|exact H].
+        destruct (ev_delegate_inj s e _ _ _ _ _ _ _ _ _ _ _ _ _ E D) as (-> & -> & -> & -> & -> & ->). exfalso. apply NA. apply ACC. exact D. }
+  5: {
+    destruct (withdraw_accept valid_id s e c0 i0 d0 r0 k0 I E) as [ACC EFF].
+    assert (ND : forall from exp lvl, ~ ev_delegate valid_id s e c from id r exp lvl)
+      by (intros from exp lvl (p & k & E' & _); rewrite E in E'; discriminate).
+    assert (NDT : ~ ev_delegate_to valid_id s e c id r) by (intros (from & exp & lvl & D); apply (ND _ _ _ D)).
+    assert (WI : ev_withdraw s e c0 d0 r0 <-> fst (stp s e) = RTrue).
+    { rewrite ACC. split.
+      - intros (init & d' & (k & E' & S) & DO & RT). rewrite E in E'. inversion E'; subst. eauto.
+      - intros [S (d' & DO & RT)]. exists i0, d'. split; [exists k0; auto|auto]. }
+    destruct (res_true_dec (fst (stp s e))) as [A|NA].
+    - destruct (EFF A) as (l1 & x & l2 & EL & ER & EQ). rewrite EQ, deleg_of_set.
+      destruct (key_eqb (c, id) (c0, d0)) eqn:K.
+      + apply key_eqb_eq in K. inversion K; subst c0 d0.
+        assert (NDU : NoDup (map d_role (l1 ++ x :: l2))) by (rewrite <- EL; apply (inv_delegs s c id I)).
+        rewrite (find_removed l1 x l2 r NDU), ER.
+        destruct (bytes_eqb r0 r) eqn:B.
+        * apply bytes_eqb_eq in B. subst r. split; [discriminate|].
+          intros [(from & exp & lvl & D & _)|[_ [H _]]]; [exfalso; apply (ND _ _ _ D)|]. exfalso. apply H. apply WI. exact A.
+        * apply bytes_eqb_neq in B. rewrite <- EL, <- deleg_of_find. split.
+          -- intro H. right. repeat split; auto. intro W. destruct (ev_withdraw_inj s e _ _ _ _ _ _ _ _ E W) as (_ & _ & X). congruence.
+          -- intros [(from & exp & lvl & D & _)|[H _]]; [exfalso; apply (ND _ _ _ D)|exact H].
+      + assert (NK : (c, id) <> (c0, d0)) by (intro X; apply key_eqb_eq in X; congruence). split.
+        * intro H. right. repeat split; auto. intro W. destruct (ev_withdraw_inj s e _ _ _ _ _ _ _ _ E W) as (X1 & X2 & _). subst. contradiction.
+        * intros [(from & exp & lvl & D & _)|[H _]]; [exfalso; apply (ND _ _ _ D)|exact H].
+    - rewrite (step_refused_same valid_id s e NA). split.
+      + intro H. right. repeat split; auto. intro W. destruct (ev_withdraw_inj s e _ _ _ _ _ _ _ _ E W) as (-> & -> & ->). apply NA. apply WI. exact W.
+      + intros [(from & exp & lvl & D & _)|[H _]]; [exfalso; apply (ND _ _ _ D)|exact H]. }
+  all: rewrite (deleg_of_ext s _ c id r) by (rewrite step_deleg_same; [reflexivity|exact I|intros; rewrite E; discriminate|intros; rewrite E; discriminate]).
+  all: split;
+    [intro H; right; repeat split; auto;
+      [intros (init & d' & (k & E' & _) & _); rewrite E in E'; discriminate
+      |intros (from & exp & lvl & p & k & E' & _); rewrite E in E'; discriminate]
+    |intros [(from & exp & lvl & (p & k & E' & _) & _)|[H _]]; [rewrite E in E'; discriminate|exact H]].
+Qed.
+End StepDeleg.
+
+(** * Histories *)
+Lemma snoc_split {A} (h : list A) x h1 e h2 : h ++ [x] = h1 ++ e :: h2 ->
+  (h2 = [] /\ h1 = h /\ e = x) \/ (exists h2', h2 = h2' ++ [x] /\ h = h1 ++ e :: h2').
+Proof.
+  intro H. destruct (exists_last (l := e :: h2)) as [l' [y Hy]]; [discriminate|].
+  destruct h2 as [|z h2].
+  - left. change (h1 ++ [e]) with (h1 ++ [e]) in H. apply app_inj_tail in H. destruct H; subst; auto.
+  - right. destruct (exists_last (l := z :: h2)) as [h2' [y' Hy']]; [discriminate|].
+    rewrite Hy' in *. exists h2'. replace (h1 ++ e :: h2' ++ [y']) with ((h1 ++ e :: h2') ++ [y']) in H by (rewrite <- app_assoc; reflexivity).
+    apply app_inj_tail in H. destruct H; subst; auto.
+Qed.
+
+
+Section Histories.
+Variable valid_id : bytes -> bool.
+Notation stp := (step valid_id).
+Notation run := (run valid_id).
+
+Lemma run_nil : run [] = init_state.
+Proof. reflexivity. Qed.
+
+(** A set that only grows. *)
+Lemma grow_events (P : state -> bool) (Ev : state -> event -> Prop) :
+  P init_state = false ->
+  (forall s e, Inv s -> (P (snd (stp s e)) = true <-> P s = true \/ Ev s e)) ->
+  forall h, P (run h) = true <-> exists h1 e h2, h = h1 ++ e :: h2 /\ Ev (run h1) e.
+Proof.
+  intros P0 ST h. induction h as [|x h IH] using rev_ind.
+  - rewrite run_nil, P0. split; [discriminate|]. intros (h1 & e & h2 & H & _). destruct h1; discriminate.
+  - rewrite run_snoc, (ST _ x (run_inv valid_id h)), IH. split.
+    + intros [(h1 & e & h2 & H & EV)|EV].
+      * exists h1, e, (h2 ++ [x]). split; [rewrite H, <- app_assoc; reflexivity|exact EV].
+      * exists h, x, []. auto.
+    + intros (h1 & e & h2 & H & EV). apply snoc_split in H. destruct H as [(-> & -> & ->)|(h2' & -> & ->)].
+      * right; exact EV.
+      * left. exists h1, e, h2'. auto.
+Qed.
+
+(** A register: the last event that sets it decides. *)
+Lemma last_writer {X} (O : state -> option X) (Sets : state -> event -> X -> Prop) :
+  O init_state = None ->
+  (forall s e x, Inv s -> (O (snd (stp s e)) = Some x <-> Sets s e x \/ (O s = Some x /\ ~ exists x', Sets s e x'))) ->
+  forall h x, O (run h) = Some x <->
+    exists h1 e h2, h = h1 ++ e :: h2 /\ Sets (run h1) e x /\
+      forall h2a e' h2b, h2 = h2a ++ e' :: h2b -> ~ exists x', Sets (run (h1 ++ e :: h2a)) e' x'.
+Proof.
+  intros O0 ST h. induction h as [|y h IH] using rev_ind; intro x.
+  - rewrite run_nil, O0. split; [discriminate|]. intros (h1 & e & h2 & H & _). destruct h1; discriminate.
+  - rewrite run_snoc, (ST _ y x (run_inv valid_id h)), IH. split.
+    + intros [SE|[(h1 & e & h2 & H & SE & NL) NS]].
+      * exists h, y, []. repeat split; auto. intros h2a e' h2b H. destruct h2a; discriminate.
+      * exists h1, e, (h2 ++ [y]). split; [rewrite H, <- app_assoc; reflexivity|]. split; [exact SE|].
+        intros h2a e' h2b H2. apply snoc_split in H2. destruct H2 as [(-> & -> & ->)|(h2b' & -> & ->)].
+        -- rewrite <- H. exact NS.
+        -- apply (NL h2a e' h2b'). reflexivity.
+    + intros (h1 & e & h2 & H & SE & NL). apply snoc_split in H. destruct H as [(-> & -> & ->)|(h2' & -> & ->)].
+      * left; exact SE.
+      * right. split.
+        -- exists h1, e, h2'. repeat split; auto. intros h2a e' h2b H2. apply (NL h2a e' (h2b ++ [y])). rewrite H2, <- app_assoc. reflexivity.
+        -- apply (NL h2' y []). reflexivity.
+Qed.
+
+Lemma fn_assigned_init c r f : fn_assigned init_state c r f = false.
+Proof. reflexivity. Qed.
+Lemma holds_direct_init c id r : holds_direct init_state c id r = false.
+Proof. reflexivity. Qed.
+
+Lemma fn_events h c r f :
+  fn_assigned (run h) c r f = true <-> exists h1 e h2, h = h1 ++ e :: h2 /\ ev_assign_fn (run h1) e c r f.
+Proof.
+  apply (grow_events (fun s => fn_assigned s c r f) (fun s e => ev_assign_fn s e c r f)); [reflexivity|].
+  intros s e I. apply step_fn. exact I.
+Qed.
+
+Lemma direct_events h c id r :
+  holds_direct (run h) c id r = true <-> exists h1 e h2, h = h1 ++ e :: h2 /\ ev_assign_id valid_id (run h1) e c id r.
+Proof.
+  apply (grow_events (fun s => holds_direct s c id r) (fun s e => ev_assign_id valid_id s e c id r)); [reflexivity|].
+  intros s e I. apply step_direct. exact I.
+Qed.
+
+Lemma admin_events h c a :
+  admin_of (run h) c = Some a <->
+  exists h1 e h2, h = h1 ++ e :: h2 /\ ev_sets_admin valid_id (run h1) e c a /\
+    forall h2a e' h2b, h2 = h2a ++ e' :: h2b -> ~ exists a', ev_sets_admin valid_id (run (h1 ++ e :: h2a)) e' c a'.
+Proof.
+  apply (last_writer (fun s => admin_of s c) (fun s e a => ev_sets_admin valid_id s e c a)); [reflexivity|].
+  intros s e x I. apply step_admin. exact I.
+Qed.
+
+(** holding a role by admin assignment is permanent *)
+Lemma direct_prefix h1 h2 c id r : holds_direct (run h1) c id r = true -> holds_direct (run (h1 ++ h2)) c id r = true.
+Proof.
+  intro H. induction h2 as [|x h2 IH] using rev_ind; [rewrite app_nil_r; exact H|].
+  rewrite app_assoc, run_snoc. apply step_direct_mono; [apply run_inv|exact IH].
+Qed.
+
+End Histories.
+
+Section DelegHistories.
+Variable valid_id : bytes -> bool.
+Notation stp := (step valid_id).
+Notation run := (run valid_id).
+
+Lemma withdraw_of_record s e c id r from exp lvl :
+  deleg_of s c id r = Some (mkDel from (mkTok r exp lvl)) ->
+  (ev_withdraw s e c id r <-> ev_withdraw_by e c from id r).
+Proof.
+  intro D. split.
+  - intros (init & d & W & D' & R). rewrite D in D'. inversion D'; subst d. simpl in R. subst. exact W.
+  - intro W. exists from, (mkDel from (mkTok r exp lvl)). auto.
+Qed.
+
+Lemma times_snoc h x : times_u32 (h ++ [x]) -> times_u32 h /\ ev_now x < 4294967296.
+Proof. intro H. apply Forall_app in H. destruct H as [H1 H2]. inversion H2; auto. Qed.
+
+Lemma deleg_events h c id r from exp lvl : times_u32 h ->
+  (deleg_of (run h) c id r = Some (mkDel from (mkTok r exp lvl)) <-> deleg_in_force valid_id h c id r from exp lvl).
+Proof.
+  induction h as [|x h IH] using rev_ind; intro TU.
+  - split; [discriminate|]. intros (h1 & e & h2 & H & _). destruct h1; discriminate.
+  - apply times_snoc in TU. destruct TU as [TU Hx]. specialize (IH TU).
+    rewrite run_snoc, (step_deleg valid_id (run h) x c id r _ (run_inv valid_id h) Hx). split.
+    + intros [(from' & exp' & lvl' & D & EQ)|(D & NW & ND)].
+      * inversion EQ; subst from' exp' lvl'. exists h, x, []. split; [reflexivity|]. split; [exact D|]. split.
+        -- intros h2a e' h2b H. destruct h2a; discriminate.
+        -- intros e' [].
+      * pose proof D as D0. apply IH in D. destruct D as (h1 & e & h2 & H & DE & NL & NWB).
+        exists h1, e, (h2 ++ [x]). split; [rewrite H, <- app_assoc; reflexivity|]. split; [exact DE|]. split.
+        -- intros h2a e' h2b H2. apply snoc_split in H2. destruct H2 as [(-> & -> & ->)|(h2b' & -> & ->)].
+           ++ rewrite <- H. exact ND.
+           ++ apply (NL h2a e' h2b'). reflexivity.
+        -- intros e' Hin. apply in_app_iff in Hin. destruct Hin as [Hin|[<-|[]]]; [apply NWB; exact Hin|].
+           intro W. apply NW. apply (withdraw_of_record _ _ _ _ _ _ _ _ D0). exact W.
+    + intros (h1 & e & h2 & H & DE & NL & NWB). apply snoc_split in H. destruct H as [(-> & -> & ->)|(h2' & -> & ->)].
+      * left. exists from, exp, lvl. auto.
+      * right.
+        assert (D : deleg_of (run (h1 ++ e :: h2')) c id r = Some (mkDel from (mkTok r exp lvl))).
+        { apply IH. exists h1, e, h2'. split; [reflexivity|]. split; [exact DE|]. split.
+          - intros h2a e' h2b H2. apply (NL h2a e' (h2b ++ [x])). rewrite H2, <- app_assoc. reflexivity.
+          - intros e' Hin. apply NWB. apply in_app_iff. left; exact Hin. }
+        split; [exact D|]. split.
+        -- intro W. apply (withdraw_of_record _ _ _ _ _ _ _ _ D) in W. apply (NWB x); [apply in_app_iff; right; left; reflexivity|exact W].
+        -- apply (NL h2' x []). reflexivity.
+Qed.
+
+(** every stored delegation record has the shape [mkDel from (mkTok r exp lvl)] with its role *)
+Lemma deleg_of_shape s c id r d : deleg_of s c id r = Some d ->
+  d = mkDel (d_root d) (mkTok r (d_expire d) (d_level d)).
+Proof.
+  intro H. apply deleg_of_some in H. destruct H as [_ H]. destruct d as [root [ro ex lv]].
+  unfold d_role, d_expire, d_level in *; simpl in *. subst. reflexivity.
+Qed.
+
+End DelegHistories.
